@@ -124,6 +124,9 @@ def pit(obs, ens, random=False, cst=0.3, kind="rank", censor=0.):
         pits = np.array([percentileofscore(ensval, obsval, kind)/100.
                         for ensval, obsval in zip(ens, obs)])
 
+        # rounding in percentileofscore can exceed 100% by one ulp
+        pits = np.clip(pits, 0., 1.)
+
     return pits, is_sudo
 
 
